@@ -115,11 +115,16 @@ def run(F, rep, tier):
         else:
             rep.violation(r2, n, "%s writes an entry into the context at its entry depth (line %s) and can be reached with a caller-visible scope: %s"
                           % (n, s.writes0[0][0], reason.get(n, "?")), "%s:%s" % (b["file"], s.writes0[0][0]))
-    rep.floor(r2, "entry-depth writers examined", nw, 1)
+    # (until the repair of the boxed-context evaluator - fix: in /repo, DESIGN 9.13 - one writer existed and was examined; now none is expected. The control that the
+    # rule can see such writes at all is the classification of the Scope primitives: at least one of them must be recognised as writing the top context.)
+    if not any("write-top" in e for e in prims.values()):
+        rep.missing_anchor(r2, "positive control: a Scope method classified as writing the top context (set_entry)")
+    rep.note("entry-depth writers examined: %d" % nw)
     nneutral = len([n for n, s in touching.items() if not s.writes0])
     rep.rules[r2]["instances"] += nneutral
     rep.rules[r2]["discharged"] += nneutral
 
+    datetime_component_rule(F, G, rep)
     # ---------------- R13.3
     grammar_rule(F, rep, r3, A)
 
@@ -327,3 +332,50 @@ def grammar_rule(F, rep, rid, A):
             rep.violation(rid, key, "a parse of `%s` adds a name to the caller's own context (relative depth %d)" % (" ".join(r["rhs"]), wm), "feel-grammar/src/feel.y")
         else:
             rep.ok(rid, key, "net 0, never below entry depth, names only at depth >= %s" % ("1" if wm < INF else "n/a"))
+
+
+def datetime_component_rule(F, G, rep):
+    """R13.6: the only ambient input evaluation may consult is today's date, and only to place a *time of day* in a named zone (the carve-out of R13.5). A date-and-time value
+    carries its own date: its time component must never reach the FeelTime operations that resolve a zone at today's date - otherwise `.time offset`, comparison or
+    subtraction of a zoned date-and-time would depend on the day of evaluation. Label propagation: born at the time component of a date-and-time (FeelDateTime::time(), or the
+    receiver of a FeelDateTime method), read at the receiver of every FeelTime / temporal function from which FeelDate::today_local is reachable."""
+    import taint
+    rid = rep.rule("R13.6", "the time component of a date-and-time value never reaches an operation that resolves its zone at today's date")
+    TODAY = "dmntk_feel::temporal::date::FeelDate::today_local"
+    if TODAY not in F.bodies:
+        rep.undecided(rid, "datetime-component", "FeelDate::today_local not found: no ambient date is consulted")
+        return
+    # functions of the temporal module from which today_local is reachable (taking a FeelTime as their first argument)
+    R = set()
+    for n, b in F.bodies.items():
+        if not n.startswith("dmntk_feel::temporal::") and not n.startswith("<dmntk_feel::temporal::"):
+            continue
+        if b.get("kind") == "closure" or not b.get("argc"):
+            continue
+        t1 = F.ty(b, b["locals"][1])
+        if "FeelTime" not in t1 or "FeelDateTime" in t1:
+            continue
+        seen, _ = G.reach([n])
+        if TODAY in seen:
+            R.add(n)
+    if not R:
+        rep.undecided(rid, "datetime-component", "no operation on a time of day reaches FeelDate::today_local")
+        return
+    DT_TIME = "dmntk_feel::temporal::FeelDateTime::time"
+    tt = taint.Taint(F, is_source=lambda p: "time-of-datetime" if p == DT_TIME else None,
+                     is_sink=lambda p: ("zone-at-today", [0]) if p in R else None,
+                     param_source=lambda n, i: "time-of-datetime" if i == 1 and n in dt_methods else None)
+    dt_methods = {n for n, b in F.bodies.items() if b.get("kind") != "closure" and b.get("argc") and n.startswith(("dmntk_feel::temporal::FeelDateTime::", "<dmntk_feel::temporal::FeelDateTime as "))
+                  and "FeelDateTime" in F.ty(b, b["locals"][1])}
+    entries = [n for n, b in F.bodies.items() if b.get("kind") != "closure" and (n in dt_methods or n.startswith("dmntk_feel_evaluator::builders::") or n.startswith("dmntk_feel_evaluator::bifs::"))]
+    for n in sorted(entries):
+        tt.analyse(n)
+    bad = [(k, a) for k, a in tt.site_args.items() if "time-of-datetime" in a.get(0, set())]
+    rep.analysed["R13.6 zone-at-today operations"] = sorted(x.split("::")[-1] for x in R)
+    rep.analysed["R13.6 entry bodies"] = len(entries)
+    if bad:
+        for (sname, fn, line), a in bad[:5]:
+            rep.violation(rid, "datetime-component:%s" % fn, "%s hands the time component of a date-and-time value to an operation that resolves the zone at today's date (line %s): the result "
+                          "depends on the day of evaluation, not on the date of the value" % (fn, line), "%s:%s" % (F.bodies[fn]["file"], line))
+    else:
+        rep.ok(rid, "datetime-component", "%d entry bodies, %d zone-at-today operations: no flow from a date-and-time's time component" % (len(entries), len(R)))
